@@ -281,8 +281,41 @@ def run_writer_head(rep, pool, driver, tier):
                        'shrunk_from_events': len(c['events']), 'shrink_steps': steps})
 
 
+def run_nul_suffix(rep, pool, driver, tier):
+    """known finding F14: a token that ENDS in U+0000.  numpy's fixed-width str arrays drop trailing NULs, so
+    the labels of a returned DataArray lose them ('b\\x00' and 'b' become one label, weights cannot be looked
+    up by name, activation raises KeyError).  Own stream, so that a different violation is still reported."""
+    from common import known_findings
+    f14 = [f for f in known_findings('C15') if f['id'] == 'F14']
+    r = rng('C15/writer/nul_suffix')
+    cases = []
+    for i in range(3 if tier == 'quick' else 20):
+        c = gen_writer_case(r, i)
+        side = r.choice([0, 1])
+        k = r.randrange(len(c['events']))
+        name = r.choice(['b', 'x', 'ä'])
+        c['events'][k][side][0] = name + '\x00'
+        # the same name without the NUL as well: the two must stay different names
+        c['events'][r.randrange(len(c['events']))][side].append(name)
+        c['events'] = [[list(dict.fromkeys(cu)), list(dict.fromkeys(ou))] for cu, ou in c['events']]
+        c['learn'] = dict(c['learn'], learner=r.choice(['ndl_threading', 'ndl_openmp']), policy='keep')
+        cases.append(c)
+    for c, (prob, res) in zip(cases, eval_writer(pool, driver, cases)):
+        rep.case({k: c[k] for k in ('events', 'container', 'compression', 'compatible', 'learn')}, nontrivial=True,
+                 stream='writer_pipeline_nul_suffix')
+        if not prob:
+            continue
+        if f14:
+            rep.known(f14[0], 'token ending in U+0000: ' + str(prob)[:160])
+        else:
+            rep.violation({'what': prob, 'input': writer_task(c), 'python': writer_snippet(c),
+                           'observed': {kk: res.get(kk) for kk in ('stage', 'err', 'msg')},
+                           'theorem_or_stream': 'C15 writer head, token ending in U+0000'})
+
+
 def run(rep, pool, driver, tier):
     run_writer_head(rep, pool, driver, tier)
+    run_nul_suffix(rep, pool, driver, tier)
     r = rng('C15')
     quick = tier == 'quick'
     cases = []
